@@ -59,20 +59,19 @@ def _space_uses(repo, col, cl: Classifier):
     fi = repo.func("jaxley/integrate.py", "integrate")
     ex = idx.expander(repo, fi)
     sites = 0
-    for sub_ex, where in ((ex.nested.get("_body_fun"), "_body_fun"), (ex, "integrate")):
-        if sub_ex is None:
-            raise AnalysisError("integrate._body_fun vanished")
-        for n in ast.walk(sub_ex.fi.node):
-            if where == "integrate" and any(n in ast.walk(nf) for nf in []):
-                pass
+    allex, todo = [], [ex]
+    while todo:
+        e_ = todo.pop()
+        allex.append(e_)
+        todo.extend(e_.nested.values())
+    for sub_ex in allex:  # integrate itself and every function nested in it (scan body, recording helper, ...)
+        for n in walk_no_nested(sub_ex.fi.node):
             if isinstance(n, ast.Subscript) and isinstance(n.value, ast.Subscript) and \
                     _named_dict(n.value) in STATE_DICTS and isinstance(n.ctx, ast.Load):
-                if where == "integrate" and _inside_nested(fi.node, n):
-                    continue
                 arr = T("sub", None, [T("param", "states"), sub_ex.term(n.value.slice)])
                 ix = sub_ex.term(n.slice)
                 sites += idx.check_site(repo, col, cl, R, sub_ex.fi, "gather", arr, ix, n)
-    if sites < 2:
+    if sites < 1:
         col.unk(R, fi, "integrate: recording gathers state[rec_state][rec_ind]", "index space of the recording gathers is not derivable",
                 node=fi.node)
 
@@ -401,6 +400,27 @@ def _time(repo, col):
                   f"{fi_.name} does not set the amplitude on [window_start:window_end]", node=fi_.node)
 
 
+def scan_body(repo, fi, ex):
+    """Expander of the function handed to nested_checkpoint_scan as the scan body (whatever it is called)."""
+    call = next((c for c in ex.calls if isinstance(c.func, ast.Name) and c.func.id == "nested_checkpoint_scan"), None)
+    if call is None or not call.args or not isinstance(call.args[0], ast.Name):
+        return None
+    return ex.nested.get(call.args[0].id)
+
+
+def recording_gathers(repo, fi, ex, first):
+    """(scan-body expander, per-step gather term, initial gather term); local helpers are looked through."""
+    body = scan_body(repo, fi, ex)
+    per_step = None
+    if body is not None and body.returns and body.returns[0].op == "tuple" and len(body.returns[0].args) == 2:
+        per_step = idx.inline(repo, body.fi, body.returns[0].args[1])
+    initial = None
+    if first is not None:
+        t = idx.inline(repo, fi, first)
+        initial = T.find(t, lambda x: x.op == "mcall" and x.name in ("asarray", "array", "stack")) or t
+    return body, per_step, initial
+
+
 def _recs(repo, col):
     R = "R-C08-recs"
     fi = repo.func("jaxley/integrate.py", "integrate")
@@ -441,13 +461,12 @@ def _recs(repo, col):
             col.check("nsteps_to_return" in asg_names and len(nm) >= 1, R, fi, "bound is the requested number of steps",
                       "nsteps_to_return", f"recordings are cut at `{upper.short()}`", node=asg)
     # order of rows: one row per recording, in the order of the recordings table, in both gathers
-    body = ex.nested.get("_body_fun")
+    body, per_step, initial = recording_gathers(repo, fi, ex, first if ok else None)
     gathers = []
-    if body is not None and body.returns and body.returns[0].op == "tuple":
-        gathers.append(("per-step", body.returns[0].args[1], body.fi))
-    ir = next((n for n in walk_no_nested(fn) if isinstance(n, ast.Assign) and isinstance(n.targets[0], ast.Name) and n.targets[0].id == "init_recs"), None)
-    if ir is not None:
-        gathers.append(("initial", ex.term(ir.value), fi))
+    if per_step is not None:
+        gathers.append(("per-step", per_step, body.fi))
+    if initial is not None:
+        gathers.append(("initial", initial, fi))
     if len(gathers) < 2:
         raise AnalysisError("integrate: recording gathers not found")
     forms = []
